@@ -8,7 +8,7 @@ from . import common
 
 META = {
     'design_ref': 'DESIGN.md §5 C14',
-    'technique': 'regular-language equivalence (DFA built from the regex literal and the raise conditions on the paths of _set_full_version, locals substituted away, vs. the Policy 5.6.12 grammar), marked-language inclusion against the recomposition template extracted from _update_full_version, marked-language inclusion in the other direction on component domains (an accepted recomposition parses back into the components it was built from), path rules check-then-commit and constructor pass-through; accepted language restricted to the parses backtracking can choose (leading optional group, lazy tails); heap interpretation of every component assignment with the real recomposition and validation (attribute stores routed through __setattr__)',
+    'technique': 'regular-language equivalence (DFA built from the regex literal and the raise conditions on the paths of _set_full_version, locals substituted away, vs. the Policy 5.6.12 grammar), marked-language inclusion against the recomposition template extracted from _update_full_version, marked-language inclusion in the other direction on component domains (an accepted recomposition parses back into the components it was built from), path rules check-then-commit and constructor pass-through; accepted language restricted to the parses backtracking can choose (leading optional group, lazy tails); heap interpretation of every component assignment with the real recomposition and validation (attribute stores routed through __setattr__); format-arity rule for the messages of refusals; helper inlining and join-over-table normalisation of the recomposition',
     'level_text': 'Static decision, for all strings over a symbolic alphabet that separates newline, blank, "_", '
                   'non-ASCII digits/letters: the accepted set of the constructor equals the Policy grammar; every '
                   'parse of every accepted string recomposes to the string; no raise after the first store and the '
@@ -374,12 +374,18 @@ def r2_lossless(rep, src, A):
     selfobj = strlang.Obj('self', ('rec', shape))
     stores = {}
 
+    # the recomposition may be delegated to a helper of the class and written as a join over a local table of (separator, component)
+    # rows: the helper is put in place, the join over the table is the concatenation of its rows
+    from .. import normalize
+    upd_node, _inl = normalize.inline_helpers(fupd)
+    upd_node = normalize.join_over_table_to_concat(upd_node, table_nodes=normalize.local_table_nodes(upd_node))
+
     def run(dec):
         it = strlang.Interp(dec, cls='BaseVersion')
         env = {'self': selfobj}
         if fupd.node.args.kwarg is not None:
             env[fupd.node.args.kwarg.arg] = {}          # called without keyword arguments: the stored components
-        for st in fupd.node.body:
+        for st in upd_node.body:
             if isinstance(st, ast.Assign) and len(st.targets) == 1 and isinstance(st.targets[0], ast.Attribute) \
                     and norm(st.targets[0].value) == 'self':
                 return (st.targets[0].attr, it.ev(st.value, env)), it
@@ -629,6 +635,8 @@ def check(src, rep, tier):
         rep.guard('C14.R3', r3_check_then_commit, src, A)
     else:
         rep.error('C14.R3', 'not evaluated: the accepted language (C14.R1) is not available')
+    from . import common
+    rep.guard('C14.R3', common.check_error_construction, src, 'C14.R3', 'debian_support', None, 0)
     if tier == 'thorough':
         common.regex_audit(rep, src, 'C14', modules=['debian_support'])
         # analyser self-consistency: the priority construction against CPython's own parse of every string of up to five characters
